@@ -1518,8 +1518,45 @@ def stale_state(ctx):
     ctx.ob(['C09'], 'R-STATE', 'stale-state|census', nloops >= 40, 'loops examined for per-element state that is not reset: %d (floor 40)' % nloops, nontrivial=False)
 
 
+ELEMENT_EDIT = re.compile(r'(slice::<impl \[T\]>::(first_mut|last_mut|iter_mut|get_mut|get_unchecked_mut|split_first_mut|split_last_mut|split_at_mut|chunks_mut|swap|fill\w*)|'
+                          r'Vec::<T, A>::(first_mut|last_mut|iter_mut|get_mut)|slice::IterMut<.*> as std::iter::Iterator>::next|IndexMut<.*>>::index_mut|Option::<T>::as_mut|mem::(swap|replace|take))$')
+ELEMENT_EDIT_ALLOWED = [
+    # (function, element type fragment, operation fragment, why)
+    ('semantic::type_definition::resolve_regions', 'type_definition::Region', 'IterMut', 'anonymous fields get their `_field_<offset>` name once the offsets are known (R-EXPR G-NAME rules)'),
+    ('semantic::module::Module::resolve_extern_values', 'ExternValue', 'IterMut', 'every extern value gets its resolved type'),
+]
+
+
+def element_edits(ctx):
+    """the elements of the sequences that carry the description to the output (regions, functions, arguments, attributes, extern
+    values, ..) are built once and pushed; after that nobody reaches into the sequence and edits an element in place.  The reviewed
+    exceptions are the two passes that complete every element of a list.  (`regions.first_mut().doc = ..` on the assumption that
+    the first region is the vftable pointer overwrites the doc of a `#[base]` field that shares its base's pointer.)"""
+    P = ctx.prog
+    n = 0
+    for f in P.fns.values():
+        if f.raw.get('derived') or not re.match(r'^<?(semantic|backends|grammar)::|^build', f.id):
+            continue
+        base = re.sub(r'(::\{closure#\d+\})+$', '', f.id)
+        for c in f.calls():
+            p = c['path'] or ''
+            if not c['callee'] or not ELEMENT_EDIT.search(p):
+                continue
+            full = c['callee'].get('rfull') or c['callee'].get('full') or ''
+            args = ' '.join(c['callee'].get('gargs', [])) + ' ' + full + ' ' + ' '.join(a.get('place', {}).get('ty', '') for a in c['term']['args'] if isinstance(a, dict))
+            hit = [t for t in ORDER_BEARING if t in args and not t.startswith('std::')]
+            if not hit:
+                continue
+            n += 1
+            allow = [a for a in ELEMENT_EDIT_ALLOWED if a[0] == base and a[1] in args and a[2] in p]
+            ctx.ob(SEQ_PROPS.get(hit[0], ['C09']) + ['C17'], 'R-SEQ', 'element-edit|%s|%s|%s' % (short(base), short(p), hit[0].split('::')[-1]), bool(allow),
+                   ('reviewed: ' + allow[0][3]) if allow else 'an element of a sequence of %s is edited in place by %s after it was built' % (hit[0], short(p)), loc(c['span']))
+    ctx.ob(['C17'], 'R-SEQ', 'element-edit|census', n >= 2, 'in-place edits of elements of order-bearing sequences examined: %d (floor 2: the two reviewed completion passes)' % n, nontrivial=False)
+
+
 def seq_rules(ctx):
     P = ctx.prog
+    element_edits(ctx)
     n = 0
     for f in P.fns.values():
         if f.raw.get('derived'):
